@@ -20,7 +20,7 @@ def loadStep (cnf : CNF) (namesOrdered : List (Label × Name × Key)) (st : Load
     let w := (lookup cnf.weights name.natAbs).getD .neutral
     let pc : PClass := match w with | .tt => .pNone | .ff => .pFalse | _ => .normal
     let (S1, k) := ld.store.addAtom (.user (name.natAbs : Int)) pc w
-    let node : Key := if name < 0 then negate k else k
+    let node : Key := if name < 0 then negKey k else k
     let S2 := if seen.contains name then S1 else
       (namesOf namesOrdered (some name)).foldl (fun S (l, n) => S.addName n node l) S1
     (⟨S2, ld.line2node ++ [node]⟩, name :: seen)
@@ -42,8 +42,18 @@ def loadFinish (cnf : CNF) (namesOrdered : List (Label × Name × Key)) (st : Lo
   let ads := cnf.ads.map (fun c => { c with nodes := c.nodes.map rename, extra := c.extra.map rename })
   ⟨{ S with ads := ads }, ld.line2node⟩
 
+/-- the explicit root node for a circuit whose last line is a literal (verbatim) -/
+def loadRoot (c : Circuit) (ld0 : Loaded) : Loaded :=
+  match c.getLast? with
+  | some (.lit _) =>
+    let (S1, _) := ld0.store.addConjNode [ld0.line2node.getLast?.getD none] none false
+    ⟨S1, ld0.line2node⟩
+  | _ => ld0
+
 theorem loadNnf_eq (c : Circuit) (cnf : CNF) (ns : List (Label × Name × Key)) :
-    loadNnf c cnf ns = loadFinish cnf ns (c.foldl (loadStep cnf ns) (⟨loadInit, []⟩, [])) := rfl
+    loadNnf c cnf ns =
+      loadFinish cnf ns (loadRoot c (c.foldl (loadStep cnf ns) (⟨loadInit, []⟩, [])).1,
+        (c.foldl (loadStep cnf ns) (⟨loadInit, []⟩, [])).2) := rfl
 
 /-! ### side condition: every literal line creates an atom node -/
 
